@@ -668,6 +668,9 @@ def cartposlos2geocentric(x, y, z, dx, dy, dz, ppc=None,
         za = np.rad2deg(np.arccos(dr))
     else:
         za = np.rad2deg(np.arcsin(ppc / r))
+        # arcsin only covers [0, 90]: the radial component of the line of
+        # sight tells the downward-looking directions apart
+        za = np.where(dr < 0, 180 - za, za)
     aa = np.zeros(za.shape)
 
     # Fix zenith and azimuth angle with optional input only when all exists
